@@ -13,8 +13,10 @@ BASE = 1 << 19
 
 
 class _Mem:
-    def __init__(self, block):
+    def __init__(self, block, unit=None):
         self.b = block          # str with embedded NULs; C adds one more NUL at the end
+        self.unit = unit
+        self.ev = None          # the evaluator in use (helpers of the unit are evaluated in place through it)
 
     def deref(self, addr, n):
         k = addr - BASE
@@ -46,6 +48,12 @@ class _Mem:
                 if self.deref(args[0] + i, n) == (args[1] & 0xff):
                     return args[0] + i
             return 0
+        if self.unit is not None and self.ev is not None:
+            fns = [f for f in self.unit.functions.get(name, []) if self.unit.body(f) is not None]
+            if not fns:
+                fns = [f for q, fl in self.unit.functions.items() if q.split("::")[-1] == name for f in fl if self.unit.body(f) is not None]
+            if len(fns) == 1:
+                return self.ev.call_function(self.unit, fns[0], args)
         raise FD.Unknown("call to %s" % name, n)
 
 
@@ -57,6 +65,7 @@ def _run_advance(unit, adv, mem, title, value):
     """metaiterator_advance(const char *&title, const char *&value): by-reference parameters are locals that are read back"""
     ps = unit.params(adv)
     ev = FD.Eval(env={ps[0]["id"]: title, ps[1]["id"]: value}, deref=mem.deref, call=mem.call, max_steps=4000)
+    mem.ev = ev
     try:
         ev.run(unit.body(adv))
     except FD._Return:
@@ -68,9 +77,10 @@ def _member_key(n):
     return "member:" + A.src(n).replace(" ", "")
 
 
-def iterate(unit, block):
-    """-> list of (key, value or None) the iterator yields for the block"""
-    mem = _Mem(block)
+def iterate(unit, block, raw=None):
+    """-> list of (key, value or None) the iterator yields for the block; `raw` (a list) receives the iterator's
+    (title, value) pointers state by state, the last one being the exhausted state"""
+    mem = _Mem(block, unit)
     adv = unit.function("metaiterator_advance")
     inc = unit.function("MetaIterator::operator++")
     beg = unit.function("MetaContainer::begin")
@@ -89,6 +99,7 @@ def iterate(unit, block):
             return ("iter", st["start"])
         return NotImplemented
     ev = FD.Eval(deref=mem.deref, call=mem.call, node_hook=bhook, max_steps=2000)
+    mem.ev = ev
     try:
         ev.run(unit.body(beg))
     except FD._Return:
@@ -99,6 +110,8 @@ def iterate(unit, block):
     title, value = _run_advance(unit, adv, mem, st["start"], 0)
     out = []
     guard = 0
+    if raw is not None:
+        raw.append((title, value))
     while title:
         guard += 1
         if guard > 64:
@@ -131,18 +144,21 @@ def iterate(unit, block):
                 return 1
             return NotImplemented
         ev2 = FD.Eval(deref=mem.deref, call=mem.call, node_hook=hook, max_steps=6000)
+        mem.ev = ev2
         try:
             ev2.run(unit.body(inc))
         except FD._Return:
             pass
         title, value = state["title"], state["value"]
+        if raw is not None:
+            raw.append((title, value))
     return out
 
 
 def length(unit, block, skip=0):
     """MetaContainer::length evaluated on a container built on the block's byte `skip` (0: as written, 1: after the
     leading ':' that Port::meta() strips)"""
-    mem = _Mem(block)
+    mem = _Mem(block, unit)
     fn = unit.function("MetaContainer::length")
 
     def hook(n, ev):
@@ -150,8 +166,144 @@ def length(unit, block, skip=0):
             return BASE + skip
         return NotImplemented
     ev = FD.Eval(deref=mem.deref, call=mem.call, node_hook=hook, max_steps=8000)
+    mem.ev = ev
     try:
         ev.run(unit.body(fn))
     except FD._Return as r:
         return r.v
     return None
+
+
+class _Stop(Exception):
+    pass
+
+
+def lookup(unit, block, qname, key, depth=0):
+    """MetaContainer::find / operator[] evaluated on the block: the container's iteration is the evaluated iterator (its
+    states in order), an iterator object is the token ("it", index of the state); range-for, begin()/end(), operator++,
+    operator bool / != and the members title / value are given their meaning on that token.
+    -> ("entry", index) / ("none",) for an iterator result, a Python string / None for a char pointer result"""
+    raw = []
+    iterate(unit, block, raw)
+    n_entries = len(raw) - 1                      # the last state is the exhausted one
+    mem = _Mem(block, unit)
+    fn = unit.function(qname)
+    keyp = unit.params(fn)[0]
+
+    def field(tok, name, n):
+        if tok == ("null",):
+            return 0
+        if isinstance(tok, tuple) and tok[0] == "it":
+            t, v = raw[min(tok[1], n_entries)]
+            return t if name == "title" else v
+        raise FD.Unknown("member %s of %r" % (name, tok), n)
+
+    def hook(n, ev):
+        k = n.get("kind")
+        ks = A.kids(n)
+        if k in ("ExprWithCleanups", "MaterializeTemporaryExpr", "CXXBindTemporaryExpr") and ks:
+            return ev.ev(ks[0])
+        if k in ("CXXConstructExpr", "CXXTemporaryObjectExpr", "CXXFunctionalCastExpr") and "MetaIterator" in (A.qtype(n) or ""):
+            if len(ks) == 1:
+                v = ev.ev(ks[-1])
+                if isinstance(v, tuple):
+                    return v                       # copy of an iterator
+                if v == 0:
+                    return ("null",)               # MetaIterator(NULL)
+                raise FD.Unknown("iterator constructed on %r" % (v,), n)
+            raise FD.Unknown("iterator construction", n)
+        if k == "CXXMemberCallExpr":
+            cal = A.strip_casts(ks[0])
+            nm = cal.get("name") or ""
+            if nm == "begin":
+                return ("it", 0)
+            if nm == "end":
+                return ("it", n_entries)
+            if nm.startswith("operator bool") or nm == "operator bool":
+                tok = ev.ev(A.kids(cal)[0])
+                return 1 if field(tok, "title", n) else 0
+            if nm in ("find", "operator[]") and depth < 2:
+                arg = ev.ev(ks[1])
+                q2 = "MetaContainer::" + nm
+                return lookup(unit, block, q2, arg if isinstance(arg, str) else mem.cstr(arg), depth + 1)
+            raise FD.Unknown("member call %s" % nm, n)
+        if k == "CXXOperatorCallExpr":
+            op = A.src(ks[0]) if ks else ""
+            if "operator++" in op:
+                tgt = A.strip_casts(ks[1])
+                tok = ev.ev(tgt)
+                if not (isinstance(tok, tuple) and tok[0] == "it"):
+                    raise FD.Unknown("++ on %r" % (tok,), n)
+                new = ("it", min(tok[1] + 1, n_entries))
+                if tgt.get("kind") == "DeclRefExpr":
+                    ev.env[tgt["referencedDecl"]["id"]] = new
+                return tok if len(ks) > 2 else new
+            if "operator!=" in op or "operator==" in op:
+                a, b = ev.ev(ks[1]), ev.ev(ks[2])
+                same = field(a, "title", n) == field(b, "title", n)
+                return int(same == ("operator==" in op))
+            if "operator*" in op:
+                return ev.ev(ks[1])
+            raise FD.Unknown("operator call %s" % op, n)
+        if k == "MemberExpr" and n.get("name") in ("title", "value") and ks:
+            base = ev.ev(ks[0])
+            if isinstance(base, tuple):
+                return field(base, n.get("name"), n)
+            return NotImplemented
+        if k == "CXXThisExpr":
+            return ("this",)
+        if k == "UnaryOperator" and n.get("opcode") == "*" and A.strip_casts(ks[0]).get("kind") == "CXXThisExpr":
+            return ("this",)
+        if k == "ImplicitCastExpr" and n.get("castKind") == "UserDefinedConversion" and ks:
+            return ev.ev(ks[0])
+        if k == "CallExpr" and A.callee_name(n) == "strcmp":
+            a, b = ev.ev(ks[1]), ev.ev(ks[2])
+            sa = a if isinstance(a, str) else mem.cstr(a)
+            sb = b if isinstance(b, str) else mem.cstr(b)
+            return 0 if sa == sb else (1 if sa > sb else -1)
+        if k in ("GNUNullExpr", "CXXNullPtrLiteralExpr"):
+            return 0
+        return NotImplemented
+
+    def stmt_hook(n, ev):
+        if n.get("kind") != "CXXForRangeStmt":
+            return None
+        ks = A.kids(n)
+        body = ks[-1]
+        decls = [d for s_ in ks for d in (A.kids(s_) if s_.get("kind") == "DeclStmt" else []) if d.get("kind") == "VarDecl" and not (d.get("name") or "").startswith("__")]
+        if len(decls) != 1:
+            raise FD.Unknown("range-for: loop variable not recognised", n)
+        rng = [d for s_ in ks for d in (A.kids(s_) if s_.get("kind") == "DeclStmt" else []) if d.get("kind") == "VarDecl" and (d.get("name") or "").startswith("__range")]
+        if not rng or not any(y.get("kind") == "CXXThisExpr" for y in A.walk(rng[0])):
+            raise FD.Unknown("range-for over something else than the container itself", n)
+        for i in range(n_entries):
+            ev.env[decls[0]["id"]] = ("it", i)
+            try:
+                ev.run(body)
+            except FD._Break:
+                break
+            except FD._Continue:
+                continue
+        return True
+    ev = FD.Eval(env={keyp["id"]: key}, deref=mem.deref, call=mem.call, node_hook=hook, stmt_hook=stmt_hook, max_steps=6000)
+    mem.ev = ev
+    try:
+        ev.run(unit.body(fn))
+        rv = None
+    except FD._Return as r:
+        rv = r.v
+    if depth > 0:
+        return rv                                  # the caller (operator[] forwarding to find) goes on with the token
+    if isinstance(rv, tuple):
+        if rv == ("null",) or (rv[0] == "it" and rv[1] >= n_entries):
+            return ("none",)
+        if rv[0] == "it":
+            return ("entry", rv[1])
+        if rv[0] in ("entry", "none"):
+            return rv
+        raise FD.Unknown("result %r" % (rv,), fn)
+    if rv is None or rv == 0:
+        return None
+    if isinstance(rv, str):
+        return rv
+    return mem.cstr(rv)
